@@ -396,3 +396,32 @@ def _core_check(assertions, timeout_ms, want_model=True, allow_sat=True, fallbac
         if res == "unsat":
             return "unsat", None, "z3-4.8", time.time() - t0
     return "unknown", None, "z3", time.time() - t0
+
+
+def alpha_eq(a, b, _depth=0):
+    """Structural equality of two z3 terms modulo the names of bound variables (z3 compares quantifiers including the names)."""
+    if a.eq(b):
+        return True
+    if _depth > 400:
+        return False
+    qa, qb = z3.is_quantifier(a), z3.is_quantifier(b)
+    if qa or qb:
+        if not (qa and qb):
+            return False
+        if a.is_forall() != b.is_forall() or a.is_lambda() != b.is_lambda() or a.num_vars() != b.num_vars():
+            return False
+        for i in range(a.num_vars()):
+            if not a.var_sort(i).eq(b.var_sort(i)):
+                return False
+        return alpha_eq(a.body(), b.body(), _depth + 1)
+    va, vb = z3.is_var(a), z3.is_var(b)
+    if va or vb:
+        return va and vb and z3.get_var_index(a) == z3.get_var_index(b) and a.sort().eq(b.sort())
+    if not (z3.is_app(a) and z3.is_app(b)):
+        return False
+    if not a.decl().eq(b.decl()) or a.num_args() != b.num_args():
+        return False
+    for x, y in zip(a.children(), b.children()):
+        if not alpha_eq(x, y, _depth + 1):
+            return False
+    return True
